@@ -243,11 +243,10 @@ class DocutilsRenderer(RendererProtocol):
                 self._heading_slugs
             )
 
-        # ensure these settings are set for later footnote transforms
-        self.document.settings.myst_footnote_transition = (
-            self.md_config.footnote_transition
-        )
-        self.document.settings.myst_footnote_sort = self.md_config.footnote_sort
+        # keep these values for the later footnote transforms
+        # (on the document: its settings object can be shared with other documents)
+        self.document.myst_footnote_transition = self.md_config.footnote_transition
+        self.document.myst_footnote_sort = self.md_config.footnote_sort
 
         # log warnings for duplicate reference definitions
         # "duplicate_refs": [{"href": "ijk", "label": "B", "map": [4, 5], "title": ""}],
